@@ -9,7 +9,7 @@ import tempfile
 import numpy as np
 
 from .. import nncommon as nc
-from ..core import MachineryFailure
+from ..core import MachineryFailure, mix
 
 STD_ORDER = ["CDR3A", "TRAV", "TRAJ", "MHCA", "CDR3B", "TRBV", "TRBJ", "MHCB", "Epitope"]
 # concrete cell texts per standard column: id 1 valid, 2 non-standard spelling, 3 junk
@@ -282,7 +282,7 @@ def run(ctx):
                     continue
                 if doc["kind"] == "merge" and len(doc["tab"]) == 4 and n % (3 if q else 2):
                     continue
-                items.append((n, oi, doc))
+                items.append((mix(n), oi, doc))
             ctx.parallel(items, _replay_item)
         ctx.exhaustive = True
         # negative controls: a standardiser applied to missing cells must be rejected by TLC; comparator self-test
